@@ -361,9 +361,19 @@ def roundtrip(run, lines, meta, ph, v, case):
 
     if not DUMPER_DEFAULTS:
         DUMPER_DEFAULTS.update(class_defaults())
-    st = v["settings"]
+    # the dict the caller hands to save(): his own object when given (it may be reused across saves)
+    caller = v.get("settings_object")
+    if caller is None:
+        caller = dict(v["settings"])
+    before = _copy.deepcopy(caller)
+    st = dict(v["settings"])         # what the caller asked for (the content he put into the dict)
     with TmpDir():
-        fn = ph.save("phonopy_params.yaml", settings=dict(st), compression=v["compression"])
+        fn = ph.save("phonopy_params.yaml", settings=caller, compression=v["compression"])
+        if caller != before:
+            # not a violation of C16 by itself (the property speaks about what is reloaded): recorded, and the
+            # shared-dict sequences below decide whether a later save/reload is affected
+            run.count("save() modified the settings dict handed in (observation, not a verdict)", section="oracle")
+            run.sample(dict(kind="caller settings dict modified by save()", before=before, after=dict(caller)), limit=4)
         if (v["compression"] is not False) != fn.endswith(".xz"):
             run.violation("Phonopy.save", "compression-name", "returned file name %s for compression=%r" % (fn, v["compression"]), case)
         # ---- what was written (content flags) vs the model of save
@@ -461,8 +471,9 @@ def roundtrip(run, lines, meta, ph, v, case):
     now = class_defaults()
     if now != DUMPER_DEFAULTS:
         changed = {k: (DUMPER_DEFAULTS.get(k), now.get(k)) for k in set(now) | set(DUMPER_DEFAULTS) if now.get(k) != DUMPER_DEFAULTS.get(k)}
-        run.violation("Phonopy.save", "class-defaults-mutated",
-                      "saving with settings %r changed class-level default dumper settings: %r" % (v["settings"], changed), case)
+        # not a violation of C16 by itself: recorded; the multi-dump sequences decide whether a later save/reload suffers
+        run.count("a save changed class-level default dumper settings (observation, not a verdict)", section="oracle")
+        run.sample(dict(kind="class-level dumper defaults changed by a save", settings=v["settings"], changed=repr(changed)[:400]), limit=4)
         DUMPER_DEFAULTS.clear()
         DUMPER_DEFAULTS.update(now)   # report once; later dumps are judged by their own reloads
 
@@ -1064,6 +1075,12 @@ def part_yaml(run, rng, rs, lines, meta):
             fn = ph.save("y.yaml")
             y = yaml.safe_load(open(fn))
         # ---- the dataset block as abstract syntax
+        block = "displacements" if kind.startswith("t1") else "dataset"
+        if not isinstance(y, dict) or block not in y or "supercell" not in y:
+            run.violation("Phonopy.save", "block-not-written",
+                          "default save() of an object with a %s dataset wrote no '%s' block (keys: %s)" % (kind, block, sorted(y) if isinstance(y, dict) else type(y).__name__),
+                          dict(kind=kind, note="preceded in this process by the saves of the other parts (non-default settings)"))
+            continue
         if kind.startswith("t1"):
             items = []
             for it in y["displacements"]:
@@ -1111,6 +1128,60 @@ def part_yaml(run, rng, rs, lines, meta):
             meta.append(("yaml", dict(kind="point", request=reqp), impl))
         run.case(("yaml", kind, ext, mag, req[:300]), nontrivial=True)
         run.count("yaml abstract syntax: %s" % kind)
+
+
+# --------------------------------------------------------------------------
+# part I: several dumps in one process (settings of one dump must not leak into the next)
+# --------------------------------------------------------------------------
+
+def part_multidump(run, rng, rs, lines, meta):
+    thorough = run.tier == "thorough"
+    base = dict(crystal="nacl_prim", smat=[2, 1, 1], nac="default", nac_factor=14.4, nac_method=None, compression=False,
+                extended=False, masses=False, magmoms=None, calculator=None, scale=1.0, fc_noise=False)
+    objs = {"A": dict(base, dataset="t1", fc="produced"), "B": dict(base, dataset="t2-energy", fc="full", crystal="cscl", smat=[1, 1, 2])}
+    phs = {k: make_object(rng, rs, dict(v, settings={})) for k, v in objs.items()}
+    settings_list = [{}, {"force_sets": False}, {"force_constants": True}, {"force_constants": False}, {"displacements": False, "force_sets": False},
+                     {"born_effective_charge": False}, {"dielectric_constant": False}, {"force_sets": False, "force_constants": True}]
+    seqs = [[("A", {"force_sets": False}), ("A", {}), ("B", {})],
+            [("B", {}), ("A", {"force_constants": True}), ("B", {}), ("A", {})],
+            [("A", {"displacements": False, "force_sets": False}), ("B", {}), ("A", {})],
+            [("B", {"born_effective_charge": False}), ("A", {}), ("B", {})]]
+    for _ in range(12 if thorough else 3):
+        seqs.append([(rng.choice("AB"), rng.choice(settings_list)) for _ in range(rng.randint(3, 6))])
+    # ---- ONE caller-owned settings dict reused across saves (of one and of two objects, both orders)
+    objs["C"] = dict(base, dataset=None, fc="full")
+    objs["D"] = dict(base, dataset="t1-disp", fc="compact")
+    phs["C"] = make_object(rng, rs, dict(objs["C"], settings={}))
+    phs["D"] = make_object(rng, rs, dict(objs["D"], settings={}))
+    shared_seqs = [(["A", "C"], {}), (["C", "A"], {}), (["A", "D", "B"], {"born_effective_charge": True}), (["B", "C", "A", "D"], {}),
+                   (["A", "A-nodataset"], {}), (["D", "A", "C"], {"force_sets": True})]
+    for order, start in shared_seqs:
+        shared = dict(start)
+        for i, k in enumerate(order):
+            if k == "A-nodataset":     # the same object after ph.dataset = None
+                pobj = make_object(rng, rs, dict(objs["A"], settings={}))
+                pobj.dataset = None
+                vv = dict(objs["A"], dataset=None, settings=dict(start), settings_object=shared)
+            else:
+                pobj = phs[k]
+                vv = dict(objs[k], settings=dict(start), settings_object=shared)
+            case = dict(sequence_of_saves=[dict(object=o) for o in order[: i + 1]], shared_settings_dict_initially=dict(start),
+                        shared_settings_dict_now=dict(shared),
+                        objects={n: dict(dataset=o["dataset"], fc=o["fc"]) for n, o in objs.items()},
+                        note="every save of the sequence is handed the SAME caller-owned settings dict; each reload is compared with the object saved")
+            vv_case = {kk: x for kk, x in vv.items() if kk != "settings_object"}
+            roundtrip(run, lines, meta, pobj, vv, dict(case, variant=vv_case))
+        run.case(("multidump-shared", repr(order), repr(start)), nontrivial=True)
+        run.count("multi-dump sequences with one shared settings dict")
+    for seq in seqs:
+        for i, (k, st) in enumerate(seq):
+            v = dict(objs[k], settings=dict(st))
+            case = dict(sequence_of_saves=[dict(object=o, settings=s_) for o, s_ in seq[: i + 1]],
+                        objects={n: dict(dataset=o["dataset"], fc=o["fc"], crystal=o["crystal"]) for n, o in objs.items()},
+                        note="all dumps in one process; each reload is compared with the object that was saved")
+            roundtrip(run, lines, meta, phs[k], v, case)
+        run.case(("multidump", repr(seq)), nontrivial=True)
+        run.count("multi-dump sequences")
 
 
 # --------------------------------------------------------------------------
@@ -1165,6 +1236,7 @@ def main(run):
     t1 = time.time()
     part_fileio(run, rng, rs, lines, meta)
     t2 = time.time()
+    part_multidump(run, rng, rs, lines, meta)
     part_saveload(run, rng, rs, lines, meta)
     t3 = time.time()
     part_priority(run, rng, rs, lines, meta)
